@@ -29,6 +29,8 @@ def run(ctx):
     session.run_sessions(ctx, ctx.scale(250, 6000), ctx.scale(14, 40), ['inv'], observers=obs)
     session.finish_observers(ctx, obs)
     slicegrid.run(ctx, ['inv'])
+    import slotgrid
+    slotgrid.run(ctx, ['inv'])
     claimprobes.run(ctx)
     claimprobes.run_handover(ctx, ['inv'], maxlen=4)
 
